@@ -435,38 +435,32 @@ pub fn chase(
     locals: &BTreeMap<String, String>,
     key: &str,
 ) -> Result<Option<String>, Error> {
-    // The haystack is a reverse iterator over both lists in series
-    let mut haystack = globals.iter().chain(locals.iter()).rev();
-
-    // Find the needle in the haystack, recursively chasing look-ups ('$')
-    // and handling defaults ('*')
+    // Find the value given for the key, recursively chasing look-ups ('$')
+    // and handling defaults ('(...)')
     let key = key.trim();
     if key.is_empty() {
         return Err(Error::Syntax(String::from("Empty key")));
     }
 
+    // A value given locally (i.e. in the step itself) wins over one given by the caller
+    let mut from_locals = true;
+    let mut found = locals.get(key);
+    if found.is_none() {
+        from_locals = false;
+        found = globals.get(key);
+    }
+    let Some(mut thevalue) = found.map(|v| v.trim()) else {
+        return Ok(None);
+    };
+
     let mut default = "";
     let mut needle = key;
-    let mut chasing = false;
-    let value;
 
-    loop {
-        let found = haystack.find(|&x| x.0 == needle);
-        if found.is_none() {
-            if !default.is_empty() {
-                return Ok(Some(String::from(default)));
-            }
-            if chasing {
-                return Err(Error::Syntax(format!(
-                    "Incomplete definition for '{key}' ('{needle}' not found)"
-                )));
-            }
-            return Ok(None);
-        }
-        let thevalue = found.unwrap().1.trim();
-
-        // If the value is a(nother) lookup, we continue the search in the same iterator,
-        // now using a *new search key*, as specified by the current value
+    // The number of look-ups is bounded, so circular references end in an error
+    for _ in 0..100 {
+        // If the value is a(nother) lookup, we continue the search among the parameters
+        // given by the caller (the globals), whatever their names and lexical order, now
+        // using a *new search key*, as specified by the current value
         if let Some(stripped) = thevalue.strip_prefix('$') {
             let mut parts: Vec<_> = stripped
                 .trim()
@@ -479,30 +473,53 @@ pub fn chase(
                 )));
             }
 
-            // Do we have a default value?, i.e. $arg_name(defualt_value)
-            if parts.len() == 2 && !chasing {
+            // Do we have a default value?, i.e. $arg_name(default_value)
+            if parts.len() == 2 && default.is_empty() {
                 default = parts.pop().unwrap();
             }
-            chasing = true;
-            needle = parts.pop().unwrap();
+            needle = parts.pop().unwrap().trim();
+            from_locals = false;
+            match globals.get(needle) {
+                Some(v) => thevalue = v.trim(),
+                None => {
+                    if !default.is_empty() {
+                        return Ok(Some(String::from(default.trim())));
+                    }
+                    return Err(Error::Syntax(format!(
+                        "Incomplete definition for '{key}' ('{needle}' not found)"
+                    )));
+                }
+            }
             continue;
         }
 
         // If the value is a provided default, we continue the search using the *same key*,
-        // in case a proper value is provided.
+        // in case a proper value is provided by the caller.
         // cf. the test `macro_expansion_with_defaults_provided_in_parenthesis()` in `./mod.rs`
         if let Some(stripped) = thevalue.strip_prefix('(') {
-            chasing = true;
-            needle = key;
             default = stripped.trim_end_matches(')');
-            continue;
+            if from_locals {
+                if let Some(v) = globals.get(needle) {
+                    from_locals = false;
+                    thevalue = v.trim();
+                    continue;
+                }
+            }
+            if !default.is_empty() {
+                return Ok(Some(String::from(default.trim())));
+            }
+            return Err(Error::Syntax(format!(
+                "Incomplete definition for '{key}' ('{needle}' not found)"
+            )));
         }
 
         // Otherwise we have the proper result
-        value = String::from(thevalue.trim());
-        break;
+        return Ok(Some(String::from(thevalue)));
     }
-    Ok(Some(value))
+
+    Err(Error::Syntax(format!(
+        "Circular definition for '{key}' (at '{needle}')"
+    )))
 }
 
 // ----- T E S T S ------------------------------------------------------------------
